@@ -176,7 +176,7 @@ Definition method_state (conv_common : smap) (lines : list rstr) : res mstate :=
 
 Definition mconf_of (m : mstate) (update : bool) : mconf :=
   {| m_common := common_of (ms_common m); m_fields := ms_fields m; m_automap := ms_automap m; m_raw_field_settings := ms_raw m;
-     m_UpdateTarget := update; m_constructor := None |}.
+     m_UpdateTarget := update; m_constructor := None; m_enum_map := []; m_enum_transforms := []; m_enum_excluded := [] |}.
 
 (* settings in effect for a declared method *)
 Definition method_smap (global conv meth : list rstr) : res smap :=
